@@ -1,7 +1,7 @@
 """C16 -- drivers pair each command with its own answer, typed by the command (see c15.py)."""
 import random
 
-from . import c15
+from . import c15, core
 
 
 def stale_scenarios(tier, seed):
@@ -20,6 +20,20 @@ def stale_scenarios(tier, seed):
                                                  "start": {"time": 0.01 + gap}},
                                                 {"name": "B", "mode": "send", "unit": [["q16", 9]], "start": {"writes": 2}}],
                                     "tag": "stale"})
+    # ... and a left-over answer that arrives while one caller's (unanswered) command is in flight and a second caller is
+    # already queued behind it: the queued caller's flush comes when its turn comes, so it still gets its own answer
+    # (LUBA only: its reports say what they are; an SCI gateway answers once per command, an unsolicited block in the
+    # middle of another command's exchange cannot be told from that command's own reply)
+    for drv in ("luba",):
+        for key in ("q16", "yn16", "st16"):
+            for outcome in (["val", 0x33], ["none", 0]):
+                for first in ("dapc", "off"):
+                    scs.append({"driver": drv, "latency": 0.03, "observe": [[0.004, "back", 0xA7, 8]], "observe_after_cmd": 1,
+                                "observe_latency": 0.0, "outcomes": [outcome],
+                                "callers": [{"name": "A", "mode": "send", "unit": [[first, 4]], "start": {"time": 0.02}},
+                                            {"name": "B", "mode": "send", "unit": [[key, 9]], "start": {"writes": 1}},
+                                            {"name": "C", "mode": "send", "unit": [[key, 11]], "start": {"writes": 2}}],
+                                "tag": "stale-queued"})
     return scs
 
 
@@ -232,5 +246,13 @@ def run(tier, seed, replay=None):
                 "type wrapping the outcome the fake gateway assigned to that wire entry; non-trivial as C15")
     out.assumptions = ["a framing error on the serial gateways is only logged by them: 'no answer' is accepted there",
                        "outcomes are assigned per wire entry by the fake gateway and recorded with the task that wrote it"]
+    if replay is None:
+        # extension: the synchronous legacy drivers (outside C16's anchors) -- model, named deviations, spec -> code replay
+        from . import legacysync
+        with core.Scratch("c16-legacy") as sc:
+            devs = legacysync.model_runs(out, sc)
+            block = legacysync.conformance(out, sc)
+            block["named_deviations"] = devs
+            out.extra["legacy_sync_conformance"] = block
     out.classify(rej, None)
     return out.finish()
